@@ -40,6 +40,9 @@ func (c *handlerClient) Do(req *http.Request) (*http.Response, error) {
 		req.Body = http.NoBody
 	}
 	c.h.ServeHTTP(rec, req)
+	// what every RoundTripper owes its caller: the request body is closed once the exchange is over (a writer still
+	// feeding a pipe learns that nobody reads any more)
+	req.Body.Close()
 	res := rec.Result()
 	res.Request = req
 	c.lastBody = rec.Body.Bytes()
